@@ -136,11 +136,16 @@ def sizeSpec (s : String) (next max : Nat) : Option Nat :=
   let h := s.take 1
   let t := (s.drop 1).toString
   if h == "=" then t.toNat?
+  else if h == "p" then
+    (if t.isEmpty then some 0 else t.toNat?).map fun d => Nat.max 1 (next - d)
   else if h == "n" ∨ h == "m" then
     let base : Int := if h == "n" then next else max
     if t.isEmpty then some base.toNat
-    else match t.toInt? with
-      | some d => some (base + d).toNat
+    else
+      let neg := t.startsWith "-"
+      match (t.drop 1).toString.toNat? with
+      | some d => if t.startsWith "+" then some (base + d).toNat
+                  else if neg then some (base - d).toNat else none
       | none => none
   else none
 
@@ -229,8 +234,8 @@ def opAsync (ofF : Float → σ) (s : AState Float σ) (consumed : Nat) (op : St
             (s', consumed + c.nIn,
               s!"ok {c.nIn} {c.nOut} | {gettersA s'} | a{if partial_ then "+" else "0"} | u1 | {dataSection c.out o.dump} | s{if c.stale then 1 else 0}", false)
           | .err e => (s', consumed, s!"{e.render} | {gettersA s'} | a{if partial_ then "+" else "0"} | u1 | d", false)
-          | .panic _ => (s', consumed, "panic", true)
-          | .abort _ => (s', consumed, "abort", true)
+          | .panic m => (s', consumed, "panic " ++ m, true)
+          | .abort m => (s', consumed, "abort " ++ m, true)
         | _, _ => bad
       | _, _, _ => bad
     | _ => bad
@@ -253,8 +258,8 @@ def opAsync (ofF : Float → σ) (s : AState Float σ) (consumed : Nat) (op : St
             (s', consumed + inn,
               s!"ok {lens} | {gettersA s'} | a+ | u1 | {dataSection (outs.map some) o.dump}", false)
           | .err e => (s', consumed, s!"{e.render} | {gettersA s'} | a+ | u1 | d", false)
-          | .panic _ => (s', consumed, "panic", true)
-          | .abort _ => (s', consumed, "abort", true)
+          | .panic m => (s', consumed, "panic " ++ m, true)
+          | .abort m => (s', consumed, "abort " ++ m, true)
         | none => bad
       | _, _, _ => bad
     | _ => bad
@@ -359,8 +364,8 @@ def opFft (s : FState Unit Unit) (consumed : Nat) (op : String) (t : List String
           match r with
           | .ok c => (s', consumed + c.nIn, s!"ok {c.nIn} {c.nOut} | {gettersF s'} | a{al} | u1 | d ?", false)
           | .err e => (s', consumed, s!"{e.render} | {gettersF s'} | a{al} | u1 | d", false)
-          | .panic _ => (s', consumed, "panic", true)
-          | .abort _ => (s', consumed, "abort", true)
+          | .panic m => (s', consumed, "panic " ++ m, true)
+          | .abort m => (s', consumed, "abort " ++ m, true)
         | _, _ => bad
       | _, _ => bad
     | _ => bad
@@ -381,8 +386,8 @@ def opFft (s : FState Unit Unit) (consumed : Nat) (op : String) (t : List String
             let lens := ",".intercalate (outs.map fun v => toString v.length)
             (s', consumed + inNext, s!"ok {lens} | {gettersF s'} | a+ | u1 | d ?", false)
           | .err e => (s', consumed, s!"{e.render} | {gettersF s'} | a+ | u1 | d", false)
-          | .panic _ => (s', consumed, "panic", true)
-          | .abort _ => (s', consumed, "abort", true)
+          | .panic m => (s', consumed, "panic " ++ m, true)
+          | .abort m => (s', consumed, "abort " ++ m, true)
         | none => bad
       | _, _ => bad
     | _ => bad
